@@ -35,6 +35,11 @@ mean, time increasing downward, refinement / reversal invariance, the zero-
 curvature identity against compute_rise_curve, ET recomputed from the dumped
 tables with Fractions (row average and time-weighted average), the layout of
 the output against the view.
+Command histories (CL): on two datasets out of three `set-curvature` is issued again before the simulation
+(another value, the same value, zero, two more times); every command is recorded (accepted / refused, what the
+dataset stores afterwards).  The curvature in force is what a fresh reader finds stored: exactly one row (the
+schema's singleton), equal to the value of the last accepted command, untouched by refused ones - and that is
+the curvature the simulated differences are held against.
 """
 import io
 import math
@@ -650,12 +655,33 @@ def gen_src(rng, k):
     return dict(kind='rec', rec=rec, et=et)
 
 
+def stored_curvature(db):
+    con = sqlite3.connect(db)
+    try:
+        return [float(r[0]) for r in con.execute('SELECT curvature_m_km2 FROM curvature ORDER BY rowid')]
+    finally:
+        con.close()
+
+
+def curvature_history(db, src):
+    """The rest of the command history of a dataset: `spowtd set-curvature DB V` for every V of
+    src['more_curvature'], in order, after the first one.  Returns one record per command (the first included):
+    the value asked for, whether the command was accepted, and what the dataset stores afterwards."""
+    first = src['plan'].get('curvature', 1.5) if src['kind'] == 'plan' else src['rec']['curvature']
+    hist = [dict(value=float(first), accepted=True, exc=None, stored=stored_curvature(db))]
+    for v in src.get('more_curvature', []):
+        _, exc, _ = D.cli(['set-curvature', db, repr(float(v))])
+        hist.append(dict(value=float(v), accepted=exc is None, exc=None if exc is None else type(exc).__name__,
+                         stored=stored_curvature(db)))
+    return hist
+
+
 def assemble(src, name='cl_db'):
     if src['kind'] == 'plan':
         r = CC.build_from_plan(PROP, src['plan'], steps=('recession', 'curvature'), name=name)
         if r['status'] != 'ok':
             raise RuntimeError('workflow failed at %s: %r' % (r['status'], r.get('exc')))
-        return r['db'], r['dir']
+        return r['db'], r['dir'], curvature_history(r['db'], src)
     d = D.scratch(PROP, name)
     db, _, exc = D.load(GP.to_dataset(src['rec'], et=src['et']), d)
     if exc is not None:
@@ -664,7 +690,43 @@ def assemble(src, name='cl_db'):
         _, exc, _ = D.cli(GP.step_argv(step, db, src['rec']))
         if exc is not None:
             raise RuntimeError('%s failed: %r' % (step, exc))
-    return db, d
+    return db, d, curvature_history(db, src)
+
+
+def curvature_in_force(hist, tb, out, case):
+    """The curvature a fresh reader of the dataset would say is in force = the value(s) stored.  More than one
+    stored row violates the schema's singleton (and no command can then have 'the requested curvature'); a
+    command that was accepted must leave exactly its own value; a refused one must leave the table as it was.
+    Returns False when the history already shows a violation."""
+    ok = True
+    told = ', '.join('set-curvature %r (%s)' % (h['value'], 'accepted' if h['accepted'] else 'refused: %s' % h['exc'])
+                     for h in hist)
+    out.count('CL:set-curvature-commands=%d' % len(hist))
+    for n, h in enumerate(hist):
+        before = hist[n - 1]['stored'] if n else None
+        if n:
+            out.count('CL:later-set-curvature:%s:%s' % ('accepted' if h['accepted'] else 'refused',
+                                                        'same-value' if h['value'] == hist[0]['value'] else
+                                                        'zero' if h['value'] == 0 else 'other-value'))
+        if len(h['stored']) > 1:
+            out.violation('oracle', 'after the command history [%s] the dataset stores %d curvatures %r: the curvature '
+                          'table is a singleton in the schema, and a reader cannot tell which curvature is in force '
+                          '(`simulate recession` takes the first row it is given)' % (told, len(h['stored']), h['stored']),
+                          case=case)
+            return False
+        if h['accepted'] and h['stored'] != [h['value']]:
+            out.violation('oracle', 'command number %d of the history [%s] was accepted but the dataset then stores %r, '
+                          'not the requested curvature %r' % (n + 1, told, h['stored'], h['value']), case=case)
+            ok = False
+        if not h['accepted'] and h['stored'] != before:
+            out.violation('oracle', 'command number %d of the history [%s] was refused but changed the stored '
+                          'curvature from %r to %r' % (n + 1, told, before, h['stored']), case=case)
+            ok = False
+    if tb['curvature'] != hist[-1]['stored']:
+        out.violation('oracle', 'the stored curvature changed from %r to %r without a set-curvature command'
+                      % (hist[-1]['stored'], tb['curvature']), case=case)
+        ok = False
+    return ok
 
 
 def read_tables(db):
@@ -854,12 +916,14 @@ def cl_case_string(tb, tab_res, obs_res, rng):
 def check_cl_one(k, src, sy_spec, T_spec, rng, out, acc, ncert):
     case = dict(level='CL', src=src, sy=sy_spec, T=T_spec, k=k)
     try:
-        db, d = assemble(src)
+        db, d, hist = assemble(src)
     except RuntimeError as e:
         out.count('CL:not-assembled')
         out.notes.append('dataset %d not assembled: %s' % (k, e))
         return
     tb = read_tables(db)
+    if not curvature_in_force(hist, tb, out, case):
+        return
     if not tb['master'] or not tb['rec']:
         out.count('CL:no-master-curve')
         return
@@ -979,7 +1043,16 @@ def run(ctx, out):
     items = []
     for k in range(ncl):
         r = C.rng_for(seed, PROP, 'cl', k)
-        items.append((k, gen_src(r, k), None, None, r))
+        src = gen_src(r, k)
+        if k % 3 != 0:
+            # command histories (own stream): set-curvature issued again - another value, the same value, zero, twice
+            # more - before the simulation; whatever the history, the simulation must use what the dataset stores
+            rh = C.rng_for(seed, PROP, 'cl-history', k)
+            first = src['plan']['curvature'] if src['kind'] == 'plan' else float(src['rec']['curvature'])
+            other = [v for v in (0.0, 0.25, 1.0, 2.25, 3.5, 6.0) if v != first]
+            src['more_curvature'] = [[rh.choice(other)], [first], rh.sample(other, 2), [rh.choice(other), first]][
+                rh.randrange(4) if k % 3 == 2 else 0]
+        items.append((k, src, None, None, r))
     run_cl(items, out, 'cl', ncert, sink=sink)
     cl_refusals(out, 'cl_refusal')
     t2 = time.time()
@@ -991,7 +1064,8 @@ def run(ctx, out):
                 '(master-like multiples of a step, uniform, random, knots of either function planted as levels), '
                 'each also reversed and refined; CL: `spowtd simulate recession` in both output modes on datasets '
                 'with time-varying ET assembled through the CLI (planted-truth plans, saw-tooth records with gaps) '
-                'with spline and PEATCLSM parameter files. Non-trivial: FL a grid of >= 3 levels with a knot of '
+                'with spline and PEATCLSM parameter files; on 2 datasets of 3 a command history with set-curvature '
+                'issued 2-3 times (other value / same value / zero) before the simulation. Non-trivial: FL a grid of >= 3 levels with a knot of '
                 'either function strictly inside; CL a master curve of >= 3 levels on a dataset where the average '
                 'ET over all steps of the recession intervals differs from the average over their first steps.')
     out.samples = [dict(level='FL', **{k: cases[0][k] for k in ('sy', 'T', 'ET', 'kappa', 'grid')}),
